@@ -468,10 +468,11 @@ OPNMIDI_EXPORT void opn2_setLogarithmicVolumes(struct OPN2_MIDIPlayer *device, i
     play->m_setup.LogarithmicVolumes = static_cast<unsigned int>(logvol);
     if(!synth.setupLocked())
     {
-        if(play->m_setup.LogarithmicVolumes != 0)
-            synth.setVolumeScaleModel(OPNMIDI_VolumeModel_NativeOPN2);
-        else if(play->m_setup.VolumeModel == OPNMIDI_VolumeModel_AUTO)//Use bank default volume model
+        // Same precedence as applySetup(): the bank default for AUTO, then the logarithmic flag
+        if(play->m_setup.VolumeModel == OPNMIDI_VolumeModel_AUTO)//Use bank default volume model
             synth.m_volumeScale = (Synth::VolumesScale)synth.m_insBankSetup.volumeModel;
+        else if(play->m_setup.LogarithmicVolumes != 0)
+            synth.setVolumeScaleModel(OPNMIDI_VolumeModel_NativeOPN2);
         else
             synth.setVolumeScaleModel(static_cast<OPNMIDI_VolumeModels>(play->m_setup.VolumeModel));
     }
@@ -487,8 +488,11 @@ OPNMIDI_EXPORT void opn2_setVolumeRangeModel(struct OPN2_MIDIPlayer *device, int
     play->m_setup.VolumeModel = volumeModel;
     if(!synth.setupLocked())
     {
+        // Same precedence as applySetup(): the bank default for AUTO, then the logarithmic flag
         if(play->m_setup.VolumeModel == OPNMIDI_VolumeModel_AUTO)//Use bank default volume model
             synth.m_volumeScale = (Synth::VolumesScale)synth.m_insBankSetup.volumeModel;
+        else if(play->m_setup.LogarithmicVolumes != 0)
+            synth.setVolumeScaleModel(OPNMIDI_VolumeModel_NativeOPN2);
         else
             synth.setVolumeScaleModel(static_cast<OPNMIDI_VolumeModels>(volumeModel));
     }
